@@ -40,6 +40,8 @@ def gen(rng, tier):
         gaps.append(rng.choice([0, 0, 0, base / 2, base, base * 1.01, base * 10, 0.001, base * 0.99]))
     sc = {'b': b, 'w': w, 'n': n, 'gaps': gaps, 'marker': rng.choice(['none', 'none', 'custom', 'str']),
           'default_wait': rng.random() < 0.05, 'consumer_delay': rng.choice([0, 0, 0, 0.005, 0.5])}
+    if sc['marker'] != 'none' and n and rng.random() < 0.5:
+        sc['none_at'] = sorted(set(rng.randrange(n) for _ in range(rng.choice([1, 1, 2]))))
     return {'scenario': sc, 'sim': swarm(rng, racy=0.25, line=0.2, max_time=400.0)}
 
 
@@ -79,6 +81,11 @@ def run(sim, sc):
     end = None if sc['marker'] == 'none' else (MarkerEq('end') if sc['marker'] == 'custom' else 'THE-END')
     q = RecQueue(sim)
     items = [('item', i) for i in range(n)]
+    if end is not None:
+        # with a custom end marker None is an ordinary data item
+        for i in sc.get('none_at', []):
+            if i < n:
+                items[i] = None
     arrivals = []  # (t_before, t_after, item)
     exact = sim.time_mode == 'exact'
 
@@ -117,18 +124,16 @@ def run(sim, sc):
         if not (1 <= len(bt) <= b):
             sim.violation('partition:batch-size-out-of-range', {'size': len(bt), 'b': b})
             return {'batches': len(batches)}
-    get_t = {}
-    for t, z in q.gets:
-        if isinstance(z, tuple):
-            get_t[z[1]] = t
-    marker_get = [t for t, z in q.gets if not isinstance(z, tuple)]
-    arr_after = {z[1]: t1 for (t0, t1, z) in arrivals if isinstance(z, tuple)}
-    marker_arr = [t1 for (t0, t1, z) in arrivals if not isinstance(z, tuple)]
+    # single producer, FIFO queue: the k-th get is the k-th put; the (n+1)-th is the end marker
+    get_t = {k: t for k, (t, z) in enumerate(q.gets[:n])}
+    marker_get = [t for t, z in q.gets[n:]]
+    arr_after = {k: t1 for k, (t0, t1, z) in enumerate(arrivals[:n])}
+    marker_arr = [t1 for (t0, t1, z) in arrivals[n:]]
     pos = 0
     timing = exact and not sim.line_p
     eps = 1e-9
     for k, (t_emit, bt) in enumerate(batches):
-        first, last = bt[0][1], bt[-1][1]
+        first, last = pos, pos + len(bt) - 1
         t_first = get_t[first]
         nxt = last + 1
         is_last_batch = k == len(batches) - 1
